@@ -2,7 +2,7 @@
    and the refutation witness of the code as found. *)
 From Coq Require Import List NArith ZArith Bool Lia Floats.
 Import ListNotations.
-Require Import MV.C15.Model MV.C15.Spec MV.C15.Exec MV.C15.ProofsHist MV.C15.ProofsDist.
+Require Import MV.C15.Model MV.C15.Spec MV.C15.Exec MV.C15.ProofsHist MV.C15.ProofsDist MV.C15.ProofsRoll MV.C15.ProofsPrec.
 Open Scope N_scope.
 
 Section Generic.
@@ -42,6 +42,37 @@ Proof.
   apply andb_prop in H as [H H4]. apply andb_prop in H as [H H3]. apply andb_prop in H as [H1 H2].
   apply N.eqb_eq in H1. repeat split; auto.
   intros Ha. rewrite Ha in H4. apply list_eqb_N_eq. exact H4.
+Qed.
+
+Lemma optb_same_refl d : optb_same O d d = true.
+Proof. destruct d; simpl; auto. apply fl_list_same_refl. Qed.
+
+(* the model's output satisfies the executable property, for ALL well-formed cases of all three kinds *)
+Theorem spec_ok_on_model c : gwf O c = true -> gspec_ok O c (grun_case O c) = true.
+Proof.
+  destruct c as [bounds ops|fixed san global name ovs|n dur ops]; intros Hwf.
+  - apply spec_ok_on_model_hist.
+  - simpl in Hwf. subst fixed. unfold grun_case, gspec_ok.
+    change (if san then sanitize_name name else name) with (eff_key san name).
+    rewrite (model_meets_spec O san global name ovs), optb_same_refl. cbn [andb].
+    pose proof (type_iff_histogram O (db_new O true san global ovs) (eff_key san name)) as T.
+    rewrite (model_meets_spec O san global name ovs) in T.
+    destruct (spec_choice O san global name ovs);
+      destruct (get_distribution_type O (db_new O true san global ovs) (eff_key san name)); try reflexivity.
+    + exfalso. assert (false = true) by (apply T; discriminate). discriminate.
+    + exfalso. apply (proj1 T); reflexivity.
+  - simpl in Hwf. apply andb_prop in Hwf as [H1 H2]. apply N.ltb_lt in H1, H2.
+    unfold grun_case, gspec_ok. apply (rrun_spec_ok O n dur H1 H2 fsame_refl).
+Qed.
+
+(* what an accepted override output means *)
+Theorem spec_ok_sound_dist fixed san global name ovs ty d :
+  gspec_ok O (CDist O fixed san global name ovs) (ODist O ty d) = true ->
+  optb_same O d (spec_choice O san global name ovs) = true
+  /\ (ty = true <-> d <> None).
+Proof.
+  unfold gspec_ok. intros H. apply andb_prop in H as [H1 H2]. split; [exact H1|].
+  apply Bool.eqb_prop in H2. subst ty. destruct d; split; intros; congruence.
 Qed.
 
 End Generic.
